@@ -4,14 +4,14 @@
                               functions.py / Axis by Gen/GenXEval.v, regenerated from the source on every run)
    ref_eval   XPath/Ref.v     XPath 1.0 semantics of the subset (tied to lxml's engine by the same check)
    deviate    XPath/Ref.v     = xlate true: the three established deviations, and nothing else, applied to e
-   in_subset  XPath/Subset.v  decidable; excludes exactly the inputs on which one of the open classes (i)(j)(l)(m)(n)(o) occurs *)
+   in_subset  XPath/Subset.v  decidable; excludes exactly the inputs on which one of the classes (i) text(), (j) prefixed attribute = in-scope default namespace, (l) junk axis / unbound prefix occurs (and concat) *)
 From Delb.Base Require Import PyStr.
 From Delb.Tree Require Import ATree ITree.
 From Delb.XPath Require Import Ast Nav Eval Ref Subset Run EvalRef OrderFacts C06Witness.
 
 (* Full statement of DESIGN.md:  forall t ctx e nsmap, in_subset e -> NoDup (eval ...) /\ (forall n, In n (eval ...) <->
    In n (ref_eval (deviate e) ...)).  Proved as stated, with in_subset depending also on the tree and the context node
-   (the classes (j) and (m) are properties of the candidates an expression meets); on in_subset the evaluator
+   (class (j) is a property of the candidates an expression meets); on in_subset the evaluator
    does not fault, so "eval" is `Ok l`.  The only normalisation: the root (document) node, which XPath 1.0 can select
    (`..` from the root element, `/.`) and no delb result can contain, is left out -- as with lxml. *)
 Theorem C06 : forall (D : itree) (m : nsmap) (e : xpath_expr) (ctx : nd),
@@ -81,7 +81,7 @@ Example C06_example : in_subset (docnode ex_tree) ex_ns ex_expr ex_ctx = true /\
 Proof. vm_compute. split; reflexivity. Qed.
 
 (* ---- regression examples: the witnesses of the classes repaired in /repo (a: 6531d56, b: 6c8d927, c: 0f8d6d4,
-        d e f k: 6d4104b, g: c8b3442, h: c9f24a8) are inside in_subset now and the evaluator agrees with the reference *)
+        d e f k: 6d4104b, g: c8b3442, h: c9f24a8, m: 2f48f15, n: 934c22d, o: 55dbc63) are inside in_subset now and the evaluator agrees with the reference *)
 Definition agrees (t : itree) (m : nsmap) (e : xpath_expr) (c : nd) (r : list npath) : Prop :=
   in_subset (docnode t) m e c = true /\ got t m e c = Ok r /\ want t m e c = Some r.
 Example C06_a_fixed : agrees wa_tree wa_ns wa_expr wa_ctx [[0;1]]%nat. Proof. vm_compute. repeat split. Qed.
@@ -105,15 +105,7 @@ Proof. vm_compute. repeat split. Qed.
 Theorem C06_j_refuted : in_subset (docnode wj_tree) wj_ns wj_expr wj_ctx = false /\
   got wj_tree wj_ns wj_expr wj_ctx = Ok [[0;0]]%nat /\ want wj_tree wj_ns wj_expr wj_ctx = Some [].
 Proof. vm_compute. repeat split. Qed.
-(* (m): k = U+00A0 "1" is the number 1 for _to_number, NaN for XPath 1.0 *)
-Theorem C06_m_refuted : in_subset (docnode wm_tree) wm_ns wm_expr wm_ctx = false /\
-  got wm_tree wm_ns wm_expr wm_ctx = Ok [[0;0]]%nat /\ want wm_tree wm_ns wm_expr wm_ctx = Some [].
-Proof. vm_compute. repeat split. Qed.
-(* (n): contains(position(), '1'): XPath 1.0 converts the number to "1" (Ref.v does not model number formatting: None) *)
-Theorem C06_n_refuted : in_subset (docnode wn_tree) wn_ns wn_expr wn_ctx = false /\
-  got wn_tree wn_ns wn_expr wn_ctx = Crash TypeError.
-Proof. vm_compute. repeat split. Qed.
-(* (o): @k = (1 = 2) on an element without k: false = false in XPath 1.0 *)
-Theorem C06_o_refuted : in_subset (docnode wo_tree) wo_ns wo_expr wo_ctx = false /\
-  got wo_tree wo_ns wo_expr wo_ctx = Ok [] /\ want wo_tree wo_ns wo_expr wo_ctx = Some [[0;0]]%nat.
-Proof. vm_compute. repeat split. Qed.
+(* ---- (m), (n), (o), found by this check after the comparison rules were implemented, repaired in 2f48f15, 934c22d, 55dbc63 *)
+Example C06_m_fixed : agrees wm_tree wm_ns wm_expr wm_ctx []. Proof. vm_compute. repeat split. Qed.
+Example C06_n_fixed : agrees wn_tree wn_ns wn_expr wn_ctx [[0;0]]%nat. Proof. vm_compute. repeat split. Qed.
+Example C06_o_fixed : agrees wo_tree wo_ns wo_expr wo_ctx [[0;0]]%nat. Proof. vm_compute. repeat split. Qed.
